@@ -593,6 +593,28 @@ def run_workload(ch: Choices, variant: str, callers: List[List[dict]], uploads_s
 
     shared_headers: Dict[int, Dict[str, str]] = {}
     attempt_counter: Dict[str, int] = {}
+    log_restore = []
+    if sched_knobs.get("debug_logging"):
+        # the application runs with DEBUG logging and a handler that formats every record
+        import logging as _logging
+        _h = _logging.StreamHandler(io.StringIO())
+        _h.setLevel(_logging.DEBUG)
+        _root = _logging.getLogger()
+        log_restore.append((_root, _h, _root.level))
+        _root.addHandler(_h)
+        _root.setLevel(_logging.DEBUG)
+    try:
+        return _run_workload(ch, variant, callers, uploads_spec, server_factory, own_transport, concurrent, sched_knobs,
+                             info, recs, by_caller, shared_headers, attempt_counter)
+    finally:
+        for _root, _h, _lvl in log_restore:
+            _root.removeHandler(_h)
+            _root.setLevel(_lvl)
+
+
+def _run_workload(ch, variant, callers, uploads_spec, server_factory, own_transport, concurrent, sched_knobs,
+                  info, recs, by_caller, shared_headers, attempt_counter):
+    pkgname, is_async, tracer_kind = VARIANTS[variant]
 
     def nonce_for(cap):
         """Requests sent with a caller's shared headers object carry no per-call nonce: the k-th request of a caller
